@@ -679,3 +679,526 @@ Proof.
   - intros y Hy. apply in_map_iff in Hy. destruct Hy as (x & <- & Hx).
     destruct (HP x (or_intror Hx)) as (E1 & _). destruct Hb as (E3 & _). congruence.
 Qed.
+
+Lemma align_grids_same nmin nmax raw l :
+  Forall (fun b => n_min b = nmin /\ n_max b = nmax) raw -> align_grids raw = Ok l -> l = raw.
+Proof.
+  intros HP Hal. destruct raw as [|b t]; [discriminate|]. cbn [align_grids] in Hal.
+  rewrite Forall_forall in HP.
+  destruct (HP b (or_introl eq_refl)) as (E3 & E4).
+  rewrite list_min_const, list_max_const in Hal.
+  - rewrite mapM_id in Hal; [congruence|].
+    intros x Hx. destruct (HP x Hx) as (E1 & E2). rewrite E3, E4, <- E1, <- E2. apply align_one_same.
+  - intros y Hy. apply in_map_iff in Hy. destruct Hy as (x & <- & Hx). destruct (HP x (or_intror Hx)). congruence.
+  - intros y Hy. apply in_map_iff in Hy. destruct Hy as (x & <- & Hx). destruct (HP x (or_intror Hx)). congruence.
+Qed.
+
+(* ================================================================ OMS partition of chain-structured graphs *)
+Definition edge (g : graph) (a b : Z) : Prop := exists n, lookup g a = Some n /\ In b (succs n).
+Fixpoint path (g : graph) (p : list Z) : Prop :=
+  match p with
+  | a :: ((b :: _) as t) => edge g a b /\ path g t
+  | _ => True
+  end.
+
+Definition is_roadm (n : node) : bool := kind_eqb (kind n) KRoadm.
+
+Record chain_wf (g : graph) (d : list line) : Prop := mkCW {
+  cw_nodup : NoDup (map uid g);
+  cw_trx : forall n, In n g -> kind n = KTrx -> exists s t, succs n = s :: t /\ is_kind g KRoadm s = true;
+  cw_starts : map (fun l => (src l, first_hop l)) d = starts_of g (filter is_roadm g);
+  cw_lines : Forall (fun l => line_ok_b g l = true) d;
+  cw_disjoint : NoDup (flat_map lels d);
+  cw_cover : forall n, In n g -> is_line_node n = true -> In (uid n) (flat_map lels d)
+}.
+
+Lemma nodup_b_NoDup l : nodup_b l = true -> NoDup l.
+Proof.
+  induction l as [|x t IH]; intros H; [constructor|].
+  cbn [nodup_b] in H. apply andb_true_iff in H. destruct H as (H1 & H2). constructor; [|auto].
+  intros Hin. apply negb_true_iff in H1. apply not_true_iff_false in H1. apply H1.
+  apply existsb_exists. exists x. split; [exact Hin|lia].
+Qed.
+
+Lemma pairs_eqb_eq a b : pairs_eqb a b = true -> a = b.
+Proof.
+  revert b. induction a as [|[x y] t IH]; intros [|[x' y'] t'] H; cbn [pairs_eqb] in H; try discriminate; [reflexivity|].
+  apply andb_true_iff in H. destruct H as (H1 & H2). apply andb_true_iff in H1. destruct H1 as (H0 & H1).
+  f_equal; [f_equal; lia|auto].
+Qed.
+
+Theorem chain_wf_b_sound g d : chain_wf_b g d = true -> chain_wf g d.
+Proof.
+  unfold chain_wf_b. intros H.
+  apply andb_true_iff in H. destruct H as (H & H6).
+  apply andb_true_iff in H. destruct H as (H & H5).
+  apply andb_true_iff in H. destruct H as (H & H4).
+  apply andb_true_iff in H. destruct H as (H & H3).
+  apply andb_true_iff in H. destruct H as (H1 & H2).
+  constructor.
+  - apply nodup_b_NoDup. exact H1.
+  - intros n Hn Hk. rewrite forallb_forall in H2. specialize (H2 n Hn). rewrite Hk in H2. cbn in H2.
+    destruct (succs n) as [|s t]; [discriminate|]. eauto.
+  - apply pairs_eqb_eq. exact H3.
+  - apply Forall_forall. apply forallb_forall. exact H4.
+  - apply nodup_b_NoDup. exact H5.
+  - intros n Hn Hl. rewrite forallb_forall in H6. specialize (H6 n Hn). rewrite Hl in H6. cbn in H6.
+    apply existsb_exists in H6. destruct H6 as (x & Hx & E). replace (uid n) with x by lia. exact Hx.
+Qed.
+
+Lemma is_kind_lookup g k u : is_kind g k u = true -> exists n, lookup g u = Some n /\ kind_eqb k (kind n) = true.
+Proof.
+  unfold is_kind, kind_of. destruct (lookup g u) as [n|]; cbn [option_map]; [|discriminate]. eauto.
+Qed.
+
+Lemma kind_eqb_eq a b : kind_eqb a b = true <-> a = b.
+Proof. destruct a, b; cbn; split; intros; congruence. Qed.
+
+Lemma kind_eqb_sym a b : kind_eqb a b = kind_eqb b a.
+Proof. destruct a, b; reflexivity. Qed.
+
+(* the while loop follows a chain to its ROADM *)
+Lemma walk_chain g : forall p x fuel,
+  p <> [] -> chain_ok_b g x p = true -> is_kind g KRoadm (List.last p 0) = true -> (length p <= fuel)%nat ->
+  walk g fuel x (hd 0 p) = Ok p.
+Proof.
+  induction p as [|y t IH]; intros x fuel Hne Hc Hr Hf; [congruence|].
+  destruct fuel as [|f]; [cbn in Hf; lia|].
+  destruct t as [|z t'].
+  - cbn [List.last hd] in *. cbn [walk]. apply is_kind_lookup in Hr. destruct Hr as (n & Hn & Hk).
+    rewrite Hn. rewrite kind_eqb_sym in Hk. rewrite Hk. reflexivity.
+  - cbn [hd]. cbn [chain_ok_b] in Hc. apply andb_true_iff in Hc. destruct Hc as (Hy & Hrest).
+    cbn [walk]. destruct (lookup g y) as [n|]; [|discriminate].
+    apply andb_true_iff in Hy. destruct Hy as (Hy1 & Hy2). apply andb_true_iff in Hy1. destruct Hy1 as (Hy0 & Hy1).
+    apply negb_true_iff in Hy0. rewrite Hy0.
+    destruct (succs n) as [|s [|s2 ss]]; try discriminate.
+    apply andb_true_iff in Hy2. destruct Hy2 as (Es & Ez).
+    assert (s = z) by lia. subst s. cbn [filter]. replace (z =? x) with false by lia. cbn [negb].
+    assert (Hw : walk g f y (hd 0 (z :: t')) = Ok (z :: t')).
+    { apply IH; [discriminate|exact Hrest| |cbn [length] in *; lia].
+      change (List.last (y :: z :: t') 0) with (List.last (z :: t') 0) in Hr. exact Hr. }
+    cbn [hd] in Hw. rewrite Hw. reflexivity.
+Qed.
+
+Lemma chain_ok_b_lookup g : forall p x u, chain_ok_b g x p = true -> In u (removelast p) ->
+  exists n, lookup g u = Some n /\ kind_eqb (kind n) KRoadm = false /\ kind_eqb (kind n) KTrx = false.
+Proof.
+  induction p as [|y t IH]; intros x u Hc Hin; [destruct Hin|].
+  destruct t as [|z t']; [destruct Hin|].
+  cbn [chain_ok_b] in Hc. apply andb_true_iff in Hc. destruct Hc as (Hy & Hrest).
+  change (removelast (y :: z :: t')) with (y :: removelast (z :: t')) in Hin.
+  destruct Hin as [<-|Hin]; [|eapply IH; eassumption].
+  destruct (lookup g y) as [n|]; [|discriminate]. exists n. split; [reflexivity|].
+  apply andb_true_iff in Hy. destruct Hy as (Hy1 & _). apply andb_true_iff in Hy1. destruct Hy1 as (A & B).
+  apply negb_true_iff in A. apply negb_true_iff in B. auto.
+Qed.
+
+Lemma chain_ok_b_path g : forall p x, chain_ok_b g x p = true -> path g p.
+Proof.
+  induction p as [|y t IH]; intros x Hc; [exact I|].
+  destruct t as [|z t']; [exact I|].
+  cbn [chain_ok_b] in Hc. apply andb_true_iff in Hc. destruct Hc as (Hy & Hrest).
+  cbn [path]. split; [|eapply IH; eassumption].
+  destruct (lookup g y) as [n|] eqn:En; [|discriminate]. exists n. split; [exact En|].
+  apply andb_true_iff in Hy. destruct Hy as (_ & Hy2).
+  destruct (succs n) as [|s [|s2 ss]]; try discriminate. left. lia.
+Qed.
+
+Lemma lookup_In g u n : lookup g u = Some n -> In n g /\ uid n = u.
+Proof.
+  induction g as [|m t IH]; cbn [lookup]; [discriminate|].
+  destruct (uid m =? u) eqn:E.
+  - intros H. injection H as <-. split; [left; reflexivity|lia].
+  - intros H. destruct (IH H). split; [right|]; assumption.
+Qed.
+
+Lemma lookup_NoDup g n : NoDup (map uid g) -> In n g -> lookup g (uid n) = Some n.
+Proof.
+  induction g as [|m t IH]; intros Hnd Hin; [destruct Hin|].
+  cbn [lookup]. cbn [map] in Hnd. inversion Hnd as [|? ? Hnot Hnd']; subst.
+  destruct Hin as [->|Hin].
+  - rewrite Z.eqb_refl. reflexivity.
+  - destruct (uid m =? uid n) eqn:E; [|auto].
+    exfalso. apply Hnot. replace (uid m) with (uid n) by lia. apply in_map. exact Hin.
+Qed.
+
+Lemma trx_vertices_nil g l :
+  (forall n, In n l -> kind n = KTrx -> exists s t, succs n = s :: t /\ is_kind g KRoadm s = true) ->
+  trx_vertices g l = Ok [].
+Proof.
+  induction l as [|n t IH]; intros H; [reflexivity|]. cbn [trx_vertices].
+  destruct (kind_eqb (kind n) KTrx) eqn:Ek.
+  - apply kind_eqb_eq in Ek. destruct (H n (or_introl eq_refl) Ek) as (s & ss & Es & Hs). rewrite Es.
+    rewrite IH by (intros; apply H; [right|]; assumption). cbn [bind]. rewrite Hs. reflexivity.
+  - apply IH. intros; apply H; [right|]; assumption.
+Qed.
+
+Lemma removelast_snoc {A} (l : list A) x : removelast (l ++ [x]) = l.
+Proof. apply removelast_last. Qed.
+
+Lemma interior_line_path l : interior (line_path l) = lels l.
+Proof. unfold interior, line_path. cbn [tl]. apply removelast_last. Qed.
+
+Lemma NoDup_app_l {A} (l1 l2 : list A) : NoDup (l1 ++ l2) -> NoDup l1.
+Proof.
+  induction l1 as [|a t IH]; intros H; [constructor|]. cbn [app] in H. inversion H as [|? ? Hn Ht]; subst.
+  constructor; [|auto]. intros Hin. apply Hn. apply in_or_app. left. exact Hin.
+Qed.
+Lemma NoDup_app_r {A} (l1 l2 : list A) : NoDup (l1 ++ l2) -> NoDup l2.
+Proof.
+  induction l1 as [|a t IH]; intros H; [exact H|]. cbn [app] in H. inversion H; subst. auto.
+Qed.
+
+Lemma NoDup_flat_map_in {A B} (f : A -> list B) (l : list A) x :
+  NoDup (flat_map f l) -> In x l -> NoDup (f x).
+Proof.
+  induction l as [|a t IH]; intros Hnd Hin; [destruct Hin|]. cbn [flat_map] in Hnd.
+  destruct Hin as [->|Hin].
+  - eapply NoDup_app_l. exact Hnd.
+  - apply IH; [|exact Hin]. eapply NoDup_app_r. exact Hnd.
+Qed.
+
+Lemma oms_els_line g d l :
+  chain_wf g d -> In l d -> oms_els g (src l, first_hop l) = Ok (line_path l).
+Proof.
+  intros W Hl. destruct W as [Wnd Wtrx Wst Wl Wdis Wcov].
+  rewrite Forall_forall in Wl. specialize (Wl l Hl). unfold line_ok_b in Wl.
+  apply andb_true_iff in Wl. destruct Wl as (Hdst & Hchain).
+  unfold oms_els. cbn [fst snd].
+  replace (first_hop l) with (hd 0 (lels l ++ [dst l])) by (unfold first_hop; destruct (lels l); reflexivity).
+  rewrite (walk_chain g (lels l ++ [dst l]) (src l)); [reflexivity| | | |].
+  - destruct (lels l); discriminate.
+  - exact Hchain.
+  - rewrite last_last. exact Hdst.
+  - (* fuel: the line elements are distinct vertices of g *)
+    assert (Hnd : NoDup (lels l)) by (eapply NoDup_flat_map_in; eassumption).
+    assert (Hincl : incl (lels l) (map uid g)).
+    { intros u Hu.
+      destruct (chain_ok_b_lookup g (lels l ++ [dst l]) (src l) u Hchain) as (n & Hn & _).
+      { rewrite removelast_last. exact Hu. }
+      apply lookup_In in Hn. destruct Hn as (Hn & <-). apply in_map. exact Hn. }
+    pose proof (NoDup_incl_length Hnd Hincl) as Hlen. rewrite map_length in Hlen.
+    rewrite app_length. cbn [length]. nia.
+Qed.
+
+Lemma mapM_map {A B C} (f : B -> res C) (h : A -> B) (k : A -> C) l :
+  (forall x, In x l -> f (h x) = Ok (k x)) -> mapM f (map h l) = Ok (map k l).
+Proof.
+  induction l as [|x t IH]; intros H; [reflexivity|]. cbn [map mapM].
+  rewrite (H x (or_introl eq_refl)). cbn [bind]. rewrite IH by (intros; apply H; right; assumption). reflexivity.
+Qed.
+
+Lemma build_oms_els_chain g d : chain_wf g d -> build_oms_els g = Ok (map line_path d).
+Proof.
+  intros W. unfold build_oms_els, oms_vertices.
+  rewrite (trx_vertices_nil g g) by (intros; eapply cw_trx; eassumption). cbn [bind]. rewrite app_nil_r.
+  change (filter (fun n => kind_eqb (kind n) KRoadm) g) with (filter is_roadm g).
+  rewrite <- (cw_starts g d W).
+  apply (mapM_map (oms_els g) (fun l => (src l, first_hop l)) line_path). intros l Hl. eapply oms_els_line; eassumption.
+Qed.
+
+Lemma starts_src g vs a b : In (a, b) (starts_of g vs) -> exists n, In n vs /\ uid n = a /\ In b (succs n).
+Proof.
+  unfold starts_of. rewrite in_flat_map. intros (n & Hn & Hin). apply in_map_iff in Hin.
+  destruct Hin as (t & Et & Ht). injection Et as <- <-. apply filter_In in Ht. exists n. tauto.
+Qed.
+
+(* every line element in exactly one OMS; each OMS runs ROADM .. next ROADM over line elements, along edges *)
+Theorem oms_partition g d :
+  chain_wf g d ->
+  exists L, build_oms_els g = Ok L /\ L = map line_path d /\
+    (forall n, In n g -> is_line_node n = true -> count_occ Z.eq_dec (flat_map interior L) (uid n) = 1%nat) /\
+    Forall (fun el => exists a els b, el = a :: els ++ [b] /\
+                      is_kind g KRoadm a = true /\ is_kind g KRoadm b = true /\
+                      Forall (fun u => is_kind g KRoadm u = false /\ is_kind g KTrx u = false) els /\
+                      path g el) L.
+Proof.
+  intros W. exists (map line_path d). split; [apply build_oms_els_chain; exact W|]. split; [reflexivity|].
+  assert (Hint : flat_map interior (map line_path d) = flat_map lels d).
+  { rewrite flat_map_concat_map, map_map, <- flat_map_concat_map. apply flat_map_ext. intros l. apply interior_line_path. }
+  split.
+  - intros n Hn Hl. rewrite Hint. apply NoDup_count_occ'; [apply (cw_disjoint g d W)|apply (cw_cover g d W); assumption].
+  - apply Forall_forall. intros el Hel. apply in_map_iff in Hel. destruct Hel as (l & <- & Hl).
+    exists (src l), (lels l), (dst l). split; [reflexivity|].
+    pose proof (cw_lines g d W) as Wl. rewrite Forall_forall in Wl. specialize (Wl l Hl). unfold line_ok_b in Wl.
+    apply andb_true_iff in Wl. destruct Wl as (Hdst & Hchain).
+    (* the source is a ROADM of g and its first hop is one of its successors *)
+    assert (Hst : In (src l, first_hop l) (starts_of g (filter is_roadm g))).
+    { rewrite <- (cw_starts g d W). apply (in_map (fun l => (src l, first_hop l))). exact Hl. }
+    apply starts_src in Hst. destruct Hst as (n & Hn & Hu & Hs). apply filter_In in Hn. destruct Hn as (Hn & Hr).
+    pose proof (lookup_NoDup g n (cw_nodup g d W) Hn) as Hlk. rewrite Hu in Hlk.
+    split; [|split; [exact Hdst|split]].
+    + unfold is_kind, kind_of. rewrite Hlk. cbn [option_map]. unfold is_roadm in Hr. rewrite kind_eqb_sym. exact Hr.
+    + apply Forall_forall. intros u Hu'.
+      destruct (chain_ok_b_lookup g (lels l ++ [dst l]) (src l) u Hchain) as (m & Hm & K1 & K2).
+      { rewrite removelast_last. exact Hu'. }
+      unfold is_kind, kind_of. rewrite Hm. cbn [option_map]. rewrite (kind_eqb_sym KRoadm), (kind_eqb_sym KTrx). auto.
+    + unfold line_path. pose proof (chain_ok_b_path g _ _ Hchain) as Hp.
+      assert (Hfh : hd 0 (lels l ++ [dst l]) = first_hop l) by (unfold first_hop; destruct (lels l); reflexivity).
+      destruct (lels l ++ [dst l]) as [|z t] eqn:E; [destruct (lels l); discriminate|].
+      cbn [path]. split; [|exact Hp]. exists n. split; [exact Hlk|]. cbn [hd] in Hfh. rewrite Hfh. exact Hs.
+Qed.
+
+(* ================================================================ reversed_oms *)
+Lemma find_index_spec {A} (p : A -> bool) l : forall k,
+  match find_index p l k with
+  | Some j => k <= j /\ exists x, nth_error l (Z.to_nat (j - k)) = Some x /\ p x = true /\
+              forall i y, (i < Z.to_nat (j - k))%nat -> nth_error l i = Some y -> p y = false
+  | None => forall x, In x l -> p x = false
+  end.
+Proof.
+  induction l as [|a t IH]; intros k; cbn [find_index]; [intros x []|].
+  destruct (p a) eqn:Ea.
+  - split; [lia|]. exists a. replace (Z.to_nat (k - k)) with O by lia. split; [reflexivity|]. split; [exact Ea|].
+    intros i y Hi. lia.
+  - specialize (IH (k + 1)). destruct (find_index p t (k + 1)) as [j|].
+    + destruct IH as (Hk & x & Hx & Px & Hfirst). split; [lia|]. exists x.
+      replace (Z.to_nat (j - k)) with (S (Z.to_nat (j - (k + 1)))) by lia. split; [exact Hx|]. split; [exact Px|].
+      intros [|i] y Hi Hy; cbn [nth_error] in Hy.
+      * injection Hy as <-. exact Ea.
+      * apply (Hfirst i y); [lia|exact Hy].
+    + intros x [<-|Hx]; [exact Ea|auto].
+Qed.
+
+Lemma ends_line_path l : ends (line_path l) = Some (src l, dst l).
+Proof. unfold ends, line_path. f_equal. f_equal. rewrite app_comm_cons. apply last_last. Qed.
+
+Lemma is_reverse_iff a b : is_reverse a b = true <-> b = (snd a, fst a).
+Proof.
+  destruct a as [a1 a2], b as [b1 b2]. unfold is_reverse. cbn [fst snd]. rewrite andb_true_iff, !Z.eqb_eq.
+  split; [intros [-> ->]; reflexivity|intros H; injection H as -> ->; auto].
+Qed.
+
+Definition pair_ends (d : list line) : list (Z * Z) := map (fun l => (src l, dst l)) d.
+
+Lemma reversed_oms_lines d :
+  reversed_oms (map line_path d) = Ok (map (fun e => find_index (is_reverse e) (pair_ends d) 0) (pair_ends d)).
+Proof.
+  unfold reversed_oms.
+  rewrite (mapM_map _ line_path (fun l => (src l, dst l)) d); [reflexivity|].
+  intros l _. rewrite ends_line_path. reflexivity.
+Qed.
+
+(* OMS i (A -> B) is paired with the first OMS running B -> A, and with nothing iff there is none;
+   when no two OMS share both ends in the same order (no parallel lines) the pairing is symmetric *)
+Theorem reversed_pairing d :
+  exists rv, reversed_oms (map line_path d) = Ok rv /\ length rv = length d /\
+    (forall i a b, nth_error (pair_ends d) i = Some (a, b) ->
+       exists r, nth_error rv i = Some r /\
+       match r with
+       | Some j => 0 <= j /\ nth_error (pair_ends d) (Z.to_nat j) = Some (b, a) /\
+                   forall k, (k < Z.to_nat j)%nat -> nth_error (pair_ends d) k <> Some (b, a)
+       | None => ~ In (b, a) (pair_ends d)
+       end) /\
+    (NoDup (pair_ends d) ->
+     forall i j, nth_error rv i = Some (Some (Z.of_nat j)) -> nth_error rv j = Some (Some (Z.of_nat i))).
+Proof.
+  eexists. split; [apply reversed_oms_lines|].
+  set (es := pair_ends d).
+  set (F := fun e => find_index (is_reverse e) es 0).
+  assert (Hlen : length es = length d) by (unfold es, pair_ends; apply map_length).
+  split; [rewrite map_length; exact Hlen|].
+  assert (Hspec : forall a b,
+            match F (a, b) with
+            | Some j => 0 <= j /\ nth_error es (Z.to_nat j) = Some (b, a) /\
+                        forall k, (k < Z.to_nat j)%nat -> nth_error es k <> Some (b, a)
+            | None => ~ In (b, a) es
+            end).
+  { intros a b. unfold F. pose proof (find_index_spec (is_reverse (a, b)) es 0) as H.
+    destruct (find_index (is_reverse (a, b)) es 0) as [j|].
+    - destruct H as (Hj & x & Hx & Px & Hfirst). replace (j - 0) with j in * by lia.
+      apply is_reverse_iff in Px. cbn [fst snd] in Px. subst x. split; [exact Hj|]. split; [exact Hx|].
+      intros k Hk Hy. specialize (Hfirst k (b, a) Hk Hy).
+      assert (is_reverse (a, b) (b, a) = true) by (apply is_reverse_iff; reflexivity). congruence.
+    - intros Hin. specialize (H (b, a) Hin).
+      assert (is_reverse (a, b) (b, a) = true) by (apply is_reverse_iff; reflexivity). congruence. }
+  split.
+  - intros i a b He. exists (F (a, b)). split; [rewrite nth_error_map, He; reflexivity|]. apply Hspec.
+  - intros Hnd i j Hi. rewrite nth_error_map in Hi |- *.
+    destruct (nth_error es i) as [[a b]|] eqn:Ei; [|discriminate]. cbn [option_map] in Hi. injection Hi as Hi.
+    pose proof (Hspec a b) as Hab. rewrite Hi in Hab. destruct Hab as (_ & Hj & _).
+    rewrite Nat2Z.id in Hj. rewrite Hj. cbn [option_map]. f_equal.
+    pose proof (Hspec b a) as Hba. destruct (F (b, a)) as [k|].
+    + destruct Hba as (Hk0 & Hk & _). f_equal.
+      assert (Z.to_nat k = i); [|lia].
+      rewrite NoDup_nth_error in Hnd. apply Hnd; [|congruence].
+      apply nth_error_Some. congruence.
+    + exfalso. apply Hba. eapply nth_error_In. exact Ei.
+Qed.
+
+(* ================================================================ the whole build_oms_list *)
+Lemma align_grids_id nmin nmax raw :
+  raw <> [] -> Forall (fun b => n_min b = nmin /\ n_max b = nmax) raw -> align_grids raw = Ok raw.
+Proof.
+  intros Hne HP. destruct raw as [|b t]; [congruence|]. cbn [align_grids].
+  rewrite Forall_forall in HP. destruct (HP b (or_introl eq_refl)) as (E3 & E4).
+  rewrite list_min_const, list_max_const.
+  - apply mapM_id. intros x Hx. destruct (HP x Hx) as (E1 & E2). rewrite E3, E4, <- E1, <- E2. apply align_one_same.
+  - intros y Hy. apply in_map_iff in Hy. destruct Hy as (x & <- & Hx). destruct (HP x (or_intror Hx)). congruence.
+  - intros y Hy. apply in_map_iff in Hy. destruct Hy as (x & <- & Hx). destruct (HP x (or_intror Hx)). congruence.
+Qed.
+
+Lemma mapM_map_comp {A B C} (f : B -> res C) (h : A -> B) l : mapM f (map h l) = mapM (fun x => f (h x)) l.
+Proof. induction l as [|x t IH]; [reflexivity|]. cbn [map mapM]. rewrite IH. reflexivity. Qed.
+
+Lemma combine_fst_snd {A B} (l : list (A * B)) : combine (map fst l) (map snd l) = l.
+Proof. induction l as [|[a b] t IH]; [reflexivity|]. cbn [map combine fst snd]. rewrite IH. reflexivity. Qed.
+
+Lemma Forall2_length' {A B} (R : A -> B -> Prop) l l' : Forall2 R l l' -> length l = length l'.
+Proof. induction 1; cbn; congruence. Qed.
+
+Lemma map_combine_l {A B C} (f : A -> C) (l : list A) (l' : list B) :
+  length l = length l' -> map (fun x => f (fst x)) (combine l l') = map f l.
+Proof.
+  revert l'. induction l as [|a t IH]; intros [|b t'] H; try discriminate; [reflexivity|].
+  cbn [combine map fst]. rewrite IH by (cbn in H; lia). reflexivity.
+Qed.
+Lemma map_combine_r {A B C} (f : B -> C) (l : list A) (l' : list B) :
+  length l = length l' -> map (fun x => f (snd x)) (combine l l') = map f l'.
+Proof.
+  revert l'. induction l as [|a t IH]; intros [|b t'] H; try discriminate; [reflexivity|].
+  cbn [combine map snd]. rewrite IH by (cbn in H; lia). reflexivity.
+Qed.
+
+Lemma Forall2_map_eq {A B C} (R : A -> B -> Prop) (f : B -> C) (h : A -> C) l l' :
+  Forall2 R l l' -> (forall a b, R a b -> f b = h a) -> map f l' = map h l.
+Proof. intros HF H. induction HF as [|a b l l' Hab _ IH]; [reflexivity|]. cbn [map]. rewrite IH, (H a b Hab). reflexivity. Qed.
+
+Lemma Forall2_map_r {A B C} (R : A -> B -> Prop) (S : A -> C -> Prop) (f : B -> C) l l' :
+  Forall2 R l l' -> (forall a b, R a b -> S a (f b)) -> Forall2 S l (map f l').
+Proof. intros HF H. induction HF as [|a b l l' Hab _ IH]; [constructor|]. cbn [map]. constructor; auto. Qed.
+
+Lemma Forall2_Forall_r {A B} (R : A -> B -> Prop) (P : B -> Prop) l l' :
+  Forall2 R l l' -> (forall a b, R a b -> P b) -> Forall P l'.
+Proof. intros HF H. induction HF as [|a b l l' Hab _ IH]; constructor; eauto. Qed.
+
+(* the usable-slot layout the map of an OMS must show *)
+Definition map_ok (g : graph) (si : band) (fmin fmax : Q) (l : line) (b : bitmap) : Prop :=
+  let nmin := frequency_to_n fmin default_grid in
+  let nmax := frequency_to_n fmax default_grid in
+  n_min b = nmin /\ n_max b = nmax /\ idx b = zrange nmin (nmax + 1) /\ NoDup (idx b) /\
+  Z.of_nat (length (cells b)) = nmax - nmin + 1 /\
+  forall n, nmin <= n <= nmax ->
+    cell_at b n = Some (if in_slots (map (band_slots default_grid) (elements_common_range g (line_path l) si)) n
+                        then SF else SU).
+
+Definition common_ok (g : graph) (si : band) (fmin fmax : Q) (els : list Z) : Prop :=
+  sorted_in fmin fmax (elements_common_range g els si) /\ slot_apart default_grid (elements_common_range g els si).
+
+Lemma oms_bitmap_ok g si fmin fmax l :
+  common_ok g si fmin fmax (line_path l) ->
+  exists b, oms_bitmap g si fmin fmax (line_path l) = Ok b /\ map_ok g si fmin fmax l b.
+Proof.
+  intros (Hs & Ha). unfold oms_bitmap.
+  destruct (bitmap_len default_grid fmin fmax _ ltac:(reflexivity) Hs Ha) as (c & Hc & Hl & Hn).
+  rewrite Hc. cbn [bind]. unfold mk_bitmap. change (Qeq_bool default_grid 0) with false.
+  assert (Hlen : Nat.eqb (length c)
+                   (length (zrange (frequency_to_n fmin default_grid) (frequency_to_n fmax default_grid + 1))) = true).
+  { apply Nat.eqb_eq. apply Nat2Z.inj. rewrite zrange_length. lia. }
+  cbv zeta. rewrite Hlen. eexists. split; [reflexivity|].
+  set (nmin := frequency_to_n fmin default_grid) in *. set (nmax := frequency_to_n fmax default_grid) in *.
+  unfold map_ok. cbn [n_min n_max idx cells]. fold nmin nmax.
+  split; [reflexivity|]. split; [reflexivity|]. split; [reflexivity|]. split; [apply zrange_NoDup|]. split; [exact Hl|].
+  intros n Hr. rewrite cell_at_wf.
+  - cbn [n_min n_max cells]. replace ((nmin <=? n) && (n <=? nmax)) with true by lia. apply Hn. exact Hr.
+  - unfold bwf. cbn [n_min n_max idx cells]. repeat split; lia.
+Qed.
+
+Theorem build_oms_list_ok g si d fmin fmax :
+  chain_wf g d -> d <> [] -> find_network_freq_range g = Ok (fmin, fmax) ->
+  Forall (fun l => common_ok g si fmin fmax (line_path l)) d ->
+  exists r rv, build_oms_list g si = Ok r /\
+    map el_ids r = map line_path d /\
+    reversed_oms (map line_path d) = Ok rv /\ map rev_id r = rv /\
+    Forall2 (map_ok g si fmin fmax) d (map smap r).
+Proof.
+  intros W Hne Hfr Hco. unfold build_oms_list, oms_vertices.
+  rewrite (trx_vertices_nil g g) by (intros; eapply cw_trx; eassumption). cbn [bind]. rewrite app_nil_r.
+  rewrite Hfr. cbn [bind fst snd].
+  change (filter (fun n => kind_eqb (kind n) KRoadm) g) with (filter is_roadm g).
+  rewrite <- (cw_starts g d W). rewrite mapM_map_comp.
+  destruct (mapM_Forall2
+              (fun l => let* el := oms_els g (src l, first_hop l) in
+                        let* b := oms_bitmap g si fmin fmax el in Ok (el, b))
+              (fun l x => fst x = line_path l /\ map_ok g si fmin fmax l (snd x)) d) as (raw & Hraw & HF).
+  { intros l Hl. rewrite (oms_els_line g d l W Hl). cbn [bind].
+    rewrite Forall_forall in Hco. destruct (oms_bitmap_ok g si fmin fmax l (Hco l Hl)) as (b & Hb & Hok).
+    rewrite Hb. cbn [bind]. exists (line_path l, b). cbn [fst snd]. auto. }
+  rewrite Hraw. cbn [bind].
+  assert (Hfst : map fst raw = map line_path d).
+  { apply (Forall2_map_eq _ fst line_path d raw HF). intros a b [E _]. exact E. }
+  assert (Hmaps : Forall2 (map_ok g si fmin fmax) d (map snd raw)).
+  { apply (Forall2_map_r _ (map_ok g si fmin fmax) snd d raw HF). intros a b [_ M]. exact M. }
+  assert (Hlenraw : length raw = length d) by (symmetry; eapply Forall2_length'; exact HF).
+  rewrite (align_grids_id (frequency_to_n fmin default_grid) (frequency_to_n fmax default_grid)).
+  2:{ destruct raw; [destruct d; [congruence|discriminate]|discriminate]. }
+  2:{ apply (Forall2_Forall_r _ _ d (map snd raw) Hmaps). intros a b (A & B & _). auto. }
+  cbn [bind]. rewrite Hfst. destruct (reversed_pairing d) as (rv & Hrv & Hlrv & _). rewrite Hrv. cbn [bind].
+  eexists. exists rv. split; [reflexivity|].
+  rewrite <- Hfst, combine_fst_snd.
+  assert (Hl2 : length raw = length rv) by lia.
+  split; [|split; [reflexivity|split]].
+  - rewrite map_map. cbn [el_ids]. rewrite (map_combine_l (fun x => fst x) raw rv Hl2). reflexivity.
+  - rewrite map_map. cbn [rev_id]. rewrite (map_combine_r (fun x => x) raw rv Hl2). apply map_id.
+  - rewrite map_map. cbn [smap]. rewrite (map_combine_l (fun x => snd x) raw rv Hl2). exact Hmaps.
+Qed.
+
+(* "the OMS list can be built" fails in the model exactly as in the code when the amplifiers of one OMS share no
+   band: a chain-structured network, C-band booster and L-band pre-amplifier on the line 1 -> 0 *)
+Theorem build_empty_common_refuted :
+  exists g si d, chain_wf g d /\ build_oms_list g si = Err "IndexError:common_range".
+Proof.
+  exists [mkN 0 KRoadm [2] []; mkN 1 KRoadm [3] [];
+          mkN 2 KAmp [1] [((191300000000000 # 1), (196100000000000 # 1))];
+          mkN 3 KAmp [4] [((191300000000000 # 1), (196100000000000 # 1))];
+          mkN 4 KAmp [0] [((186000000000000 # 1), (190000000000000 # 1))]],
+         ((191300000000000 # 1), (195100000000000 # 1)),
+         [mkL 0 [2] 1; mkL 1 [3; 4] 0].
+  split; [apply chain_wf_b_sound; vm_compute; reflexivity|vm_compute; reflexivity].
+Qed.
+
+(* ================================================================ the hypotheses are decidable: reflection *)
+Lemma Qltb_lt a b : Qltb a b = true -> (a < b)%Q.
+Proof.
+  unfold Qltb. intros H. apply negb_true_iff in H. apply Qnot_le_lt. intros Hle. apply Qle_bool_iff in Hle. congruence.
+Qed.
+
+Lemma sorted_from_b_sound f_max common : forall prev, sorted_from_b prev common f_max = true -> sorted_from prev common f_max.
+Proof.
+  induction common as [|[lo hi] t IH]; intros prev H; cbn [sorted_from_b sorted_from] in *.
+  - apply Qle_bool_iff. exact H.
+  - apply andb_true_iff in H. destruct H as (H & H3). apply andb_true_iff in H. destruct H as (H1 & H2).
+    split; [apply Qltb_lt; exact H1|]. split; [apply Qle_bool_iff; exact H2|auto].
+Qed.
+
+Lemma sorted_in_b_sound f_min f_max common : sorted_in_b f_min f_max common = true -> sorted_in f_min f_max common.
+Proof.
+  destruct common as [|[lo hi] t]; cbn [sorted_in_b sorted_in]; [discriminate|]. intros H.
+  apply andb_true_iff in H. destruct H as (H & H3). apply andb_true_iff in H. destruct H as (H1 & H2).
+  split; [apply Qle_bool_iff; exact H1|]. split; [apply Qle_bool_iff; exact H2|apply sorted_from_b_sound; exact H3].
+Qed.
+
+Lemma slot_apart_b_sound grid common : slot_apart_b grid common = true -> slot_apart grid common.
+Proof.
+  induction common as [|b1 t IH]; [intros; exact I|]. destruct t as [|b2 t']; [intros; exact I|].
+  intros H. change (slot_apart_b grid (b1 :: b2 :: t')) with
+    ((frequency_to_n (snd b1) grid <? frequency_to_n (fst b2) grid) && slot_apart_b grid (b2 :: t')) in H.
+  apply andb_true_iff in H. destruct H as (H1 & H2).
+  change (frequency_to_n (snd b1) grid < frequency_to_n (fst b2) grid /\ slot_apart grid (b2 :: t')).
+  split; [lia|apply IH; exact H2].
+Qed.
+
+Theorem net_hyps_b_sound g si d :
+  net_hyps_b g si d = true ->
+  exists fmin fmax, chain_wf g d /\ d <> [] /\ find_network_freq_range g = Ok (fmin, fmax) /\
+                    Forall (fun l => common_ok g si fmin fmax (line_path l)) d.
+Proof.
+  unfold net_hyps_b. intros H. apply andb_true_iff in H. destruct H as (H & H3).
+  apply andb_true_iff in H. destruct H as (H1 & H2).
+  destruct (find_network_freq_range g) as [[fmin fmax]|e]; [|discriminate]. exists fmin, fmax.
+  split; [apply chain_wf_b_sound; exact H1|]. split.
+  - intros ->. discriminate.
+  - split; [reflexivity|]. apply Forall_forall. intros l Hl. rewrite forallb_forall in H3. specialize (H3 l Hl).
+    unfold common_ok_b in H3. apply andb_true_iff in H3. destruct H3 as (A & B).
+    split; [apply sorted_in_b_sound; exact A|apply slot_apart_b_sound; exact B].
+Qed.
